@@ -26,7 +26,11 @@ ASSUMPTIONS = ['tzid_from_dt(dt) and dt.astimezone(UTC) are library calls: their
                'property, parameter and component names are ASCII',
                'zoned test values lie at least 3 h away from a UTC-offset transition of their zone',
                'a bare 2-tuple given to RDATE/EXDATE is a sequence of two values (Python semantics), not one PERIOD: '
-               'outside the oracle domain, inside the correspondence']
+               'outside the oracle domain, inside the correspondence',
+               'oracle domain: zoned / floating DATE-TIME only for DTSTART DTEND DUE RECURRENCE-ID RDATE EXDATE FREEBUSY '
+               '(RFC 5545: the other DATE-TIME properties MUST be UTC; add() converts DTSTAMP CREATED LAST-MODIFIED itself, '
+               'but not inside a list); lists of one kind; inside VTIMEZONE plain ASCII text and no parameters except on '
+               'TZNAME (the zoneinfo provider re-reads the text with dateutil.tz.tzical: C12)']
 
 ZONES = ['Europe/Berlin', 'America/New_York', 'Asia/Kolkata', 'Australia/Lord_Howe']
 
@@ -61,6 +65,7 @@ CLASS_TYPES = {
     'vPeriod': ['PERIOD'], 'vUTCOffset': ['UTC-OFFSET'], 'vRecur': ['RECUR'], 'vBinary': ['BINARY'], 'vDuration': ['DURATION'],
 }
 UTC_FORCED = {'DTSTAMP', 'CREATED', 'LAST-MODIFIED'}
+ZONED_OK = {'DTSTART', 'DTEND', 'DUE', 'RECURRENCE-ID', 'RDATE', 'EXDATE'}    # DATE-TIME in any of the three forms
 LIST_NAMES = {'RDATE', 'EXDATE', 'CATEGORIES'}
 
 # descriptors of cal.py (attribute -> property name), by component class name
@@ -594,7 +599,7 @@ def same_moment(got, want, forced_utc=False):
 
 def decoded_value(kind, v):
     """Python value of a parsed value object, by the kind that was supplied"""
-    from icalendar import vDDDLists, vPeriod
+    from icalendar.prop import vDDDLists
     if kind in ('text', 'uri', 'cal-address'):
         return str(v)
     if kind == 'int':
@@ -717,7 +722,10 @@ def rand_supply(rng, name):
     if t == 'DATE':
         return 'date', rand_dt(rng, 'date'), ['DATE']
     if t == 'DATE-TIME':
-        return 'datetime', rand_dt(rng, rng.choice(['naive', 'utc', 'zoned'] if name != 'TRIGGER' else ['utc'])), ['DATE-TIME']
+        # RFC 5545: COMPLETED, CREATED, DTSTAMP, LAST-MODIFIED and an absolute TRIGGER MUST be UTC; `add` converts
+        # the three names of UTC_FORCED itself, so any datetime may be handed to it for those
+        kinds = ['naive', 'utc', 'zoned'] if (name in ZONED_OK or name in UTC_FORCED) else ['utc']
+        return 'datetime', rand_dt(rng, rng.choice(kinds)), ['DATE-TIME']
     if t == 'DURATION':
         return 'duration', rand_td(rng), ['DURATION']
     if t == 'PERIOD':
@@ -804,17 +812,28 @@ def build_oracle_tree(rng, kind='VCALENDAR', depth=0):
         present = any(r.name == name for r in node.recs)
         if present and name in SINGLE_VALUED:
             continue
-        if kind in ('STANDARD', 'DAYLIGHT') and name == 'RDATE':
+        in_tz = kind in ('VTIMEZONE', 'STANDARD', 'DAYLIGHT')
+        if in_tz and name == 'RDATE':
             vk, value, rk = 'datelist', [datetime(2000 + i, 3, 1, 2) for i in range(rng.randint(1, 2))], ['DATE-TIME']
+        elif in_tz and name == 'TZNAME':
+            if present:
+                continue
+            vk, value, rk = 'text', {'STANDARD': 'STD', 'DAYLIGHT': 'DST'}[kind], ['TEXT']
+        elif in_tz and name in ('COMMENT', 'X-LIC-LOCATION'):
+            # under the zoneinfo provider the text of a VTIMEZONE is read a second time by dateutil.tz.tzical,
+            # which splits lines at Unicode line boundaries (C12): plain ASCII text here
+            vk, value, rk = 'text', ''.join(rng.choice('abc XYZ,;:') for _ in range(rng.randint(0, 12))), ['TEXT']
         else:
             vk, value, rk = rand_supply(rng, name)
         params = oracle_params(rng) if vk in ('text', 'cal-address', 'uri', 'categories') or rng.random() < 0.2 else {}
+        if in_tz and name != 'TZNAME':
+            params = {}       # tzical rejects parameters on the lines it reads (RDATE, RRULE, TZNAME, ...)
         kept = {k: v for k, v in params.items() if v is not None}
         api = as_api_value(vk, value)
         how = rng.random()
         spelled = rng.choice([name, name.lower(), name.capitalize()])
         zs = zones_of(value)
-        if how < 0.12 and name not in LIST_NAMES and vk not in ('datelist', 'categories'):
+        if how < 0.06 and not in_tz and name not in LIST_NAMES and name not in UTC_FORCED and vk not in ('datelist', 'categories'):
             # a Python list of values: one line per element
             vals = [value]
             for _ in range(rng.randint(0, 2)):
@@ -828,7 +847,8 @@ def build_oracle_tree(rng, kind='VCALENDAR', depth=0):
             one = len(vals) == 1 and not present
             for v in vals:
                 node.recs.append(Rec(name, vk, v, kept, rk, zones_of(v), listed=one))
-        elif how < 0.22 and not present and vk in ('text', 'uri', 'cal-address', 'date', 'datetime', 'duration'):
+        elif how < 0.22 and not present and vk in ('text', 'uri', 'cal-address', 'date', 'datetime', 'duration') and not (
+                name in UTC_FORCED and not (isinstance(value, datetime) and is_utc(value))):
             # item assignment of an explicitly constructed value object
             obj = {'text': vText, 'uri': vUri, 'cal-address': vCalAddress}.get(vk, vDDDTypes)(value)
             for k, v in kept.items():
@@ -862,8 +882,10 @@ def build_oracle_tree(rng, kind='VCALENDAR', depth=0):
               'VTODO': ['VALARM'], 'VTIMEZONE': ['STANDARD', 'DAYLIGHT'], 'X-FOO': ['X-FOO', 'VEVENT']}.get(kind, [])
     if nested and depth < 3:
         n = rng.randint(1, 2) if kind == 'VTIMEZONE' else rng.choice([0, 1, 2, 3]) if kind == 'VCALENDAR' else rng.choice([0, 0, 1, 2])
-        for _ in range(n):
-            sc, sn = build_oracle_tree(rng, rng.choice(nested), depth + 1)
+        for i in range(n):
+            # a VTIMEZONE gets a STANDARD first: with DAYLIGHT only, the pytz provider cannot build the zone (C12)
+            sub_kind = 'STANDARD' if (kind == 'VTIMEZONE' and i == 0) else rng.choice(nested)
+            sc, sn = build_oracle_tree(rng, sub_kind, depth + 1)
             c.add_component(sc)
             node.subs.append(sn)
     return c, node
@@ -943,6 +965,10 @@ def norm_param(v):
         v = [str(x) for x in v]
         return v[0] if len(v) == 1 else v
     return str(v)
+
+
+def norm_text(s):
+    return s.replace('\\N', '\n').replace('\r\n', '\n')
 
 
 def classify_rec(rec):
@@ -1044,6 +1070,10 @@ def check_node(ctx, inp, built, node, scanned, parsed, path):
             if rec.kind == 'geo':
                 want = (float(want[0]), float(want[1]))
             forced = name in UTC_FORCED
+            if rec.kind == 'text':
+                want = norm_text(want)      # the documented normalisation of TEXT (C07): literal \N and CRLF become LF
+            if rec.kind == 'categories':
+                want = [norm_text(x) for x in want]
             if rec.kind == 'datelist':
                 same = isinstance(got, list) and len(got) == len(want) and all(same_moment(g, w) for g, w in zip(got, want))
             else:
@@ -1063,6 +1093,10 @@ def describe(node):
             'subs': [describe(s) for s in node.subs]}
 
 
+def tzname_has_params(node):
+    return any(r.name == 'TZNAME' and r.params for r in node.recs) or any(tzname_has_params(s) for s in node.subs)
+
+
 def roundtrip_case(ctx, rng, label, kind='VCALENDAR'):
     import icalendar
     state = rng.getstate()
@@ -1078,7 +1112,8 @@ def roundtrip_case(ctx, rng, label, kind='VCALENDAR'):
     try:
         parsed = icalendar.Component.from_ical(data)
     except Exception as e:  # noqa: BLE001
-        ctx.violation('from_ical-raises', inp, f'{type(e).__name__}: {e}')
+        cls = 'tzname-param-rejected' if (label == 'zoneinfo' and 'TZNAME parm' in str(e) and tzname_has_params(node)) else None
+        ctx.violation('from_ical-raises', inp, f'{type(e).__name__}: {e}', cls)
         return
     scanned = scan_tree(scan_lines(data))
     if len(scanned) != 1:
